@@ -21,6 +21,7 @@ type Case struct {
 	B   int    `json:"b"`
 	Ch  int    `json:"ch"`
 	Idx []int  `json:"idx,omitempty"`
+	Fix int    `json:"fix,omitempty"` // fixture construction order, see kit.AnyRootWindow
 }
 
 var names = kit.BuiltinNames()
@@ -34,9 +35,11 @@ func Check(c *Case) (res kit.Result) {
 		return
 	}
 	C := c.C
-	root := kit.AnyRoot(c.T, C, c.Kr)
+	if c.Fix < 0 || c.Fix > 2 {
+		return
+	}
+	root, parent := kit.AnyRootWindow(c.T, C, c.Kr, c.A, c.B, 0, c.Fix)
 	model := root.Snap()
-	parent := root.Slice(c.A, c.B)
 	ph := parent.Hdr()
 	frames := c.B - c.A
 	var view kit.AnyChan
@@ -107,7 +110,7 @@ func Check(c *Case) (res kit.Result) {
 func FP(c *Case) uint64 {
 	h := kit.NewHasher()
 	h.Str(c.T)
-	h.Ints([]int{c.C, c.Kr, c.A, c.B, c.Ch})
+	h.Ints([]int{c.C, c.Kr, c.A, c.B, c.Ch, c.Fix})
 	h.Ints(c.Idx)
 	return h.Sum()
 }
@@ -116,6 +119,7 @@ func Gen(t *rapid.T) *Case {
 	c := &Case{T: rapid.SampledFrom(names).Draw(t, "type"), C: rapid.IntRange(1, 8).Draw(t, "channels")}
 	c.Kr, c.A, c.B = kit.GenWindow(t, "p", 2000)
 	c.Ch = rapid.IntRange(0, c.C-1).Draw(t, "ch")
+	c.Fix = rapid.IntRange(0, 2).Draw(t, "fix")
 	if fr := c.B - c.A; fr > 24 {
 		n := rapid.IntRange(1, 24).Draw(t, "nidx")
 		for k := 0; k < n; k++ {
